@@ -157,6 +157,12 @@ def run(repo: Repo, chk: Check):
     chk.assume("statements inside the except handlers and the finally block of process_input do not raise (traceback formatting, logging while ENABLE_LOGGING is False)")
     live = cfg.reachable(avoid_edges=pruned)
     reply_nodes = [n.id for n in cfg.nodes if n.id in live and n.kind == "stmt" and any(c in reply_calls for c in ast.walk(n.ast))]
+    direct_reply = bool(reply_nodes)
+    if not reply_nodes:
+        # the reply may have been moved into a helper (module-level or nested function) that process_input calls
+        helpers = {f.name for f in ast.walk(m.tree) if isinstance(f, (ast.FunctionDef,)) and f is not fn and any(c in reply_calls for c in ast.walk(f))}
+        reply_nodes = [n.id for n in cfg.nodes if n.id in live and n.kind == "stmt" and not isinstance(n.ast, (ast.FunctionDef, ast.ClassDef))
+                       and any(isinstance(c, ast.Call) and isinstance(c.func, ast.Name) and c.func.id in helpers for c in ast.walk(n.ast))]
     if not reply_nodes:
         raise AnalysisError("process_input: reply site not found")
     # start of the obligated region: the statement after the empty-line early return
@@ -174,6 +180,16 @@ def run(repo: Repo, chk: Check):
     for n in cfg.nodes:
         if n.kind == "test" and n.id in live and isinstance(n.ast, ast.Compare) and norm(n.ast).endswith("is not None") and in_handler_or_finally(n.ast, fn):
             resp_name = norm(n.ast.left)
+    if resp_name is None:
+        # the test may sit outside any handler (reply moved behind the try statement)
+        best_size = None
+        for n in cfg.nodes:
+            if n.kind == "test" and n.id in live and isinstance(n.ast, ast.Compare) and norm(n.ast).endswith("is not None") and isinstance(n.ast.left, ast.Name):
+                tb = [b for b, lab in cfg.succ[n.id] if isinstance(lab, tuple) and lab[0] != "exc" and lab[1] is True]
+                if tb and any(r in cfg.reachable(start=tb[0]) for r in reply_nodes):
+                    size = len(cfg.reachable(start=tb[0]))
+                    if resp_name is None or size < best_size:
+                        resp_name, best_size = norm(n.ast.left), size
     if resp_name is None:
         # unconditional reply: find the variable inside json.dumps
         for c in ast.walk(fn):
@@ -221,7 +237,7 @@ def run(repo: Repo, chk: Check):
             stack.extend(b for i, (b, lab) in enumerate(cfg.succ[a]) if (a, i) not in pruned)
     chk.judge("R14.b", "mod_daemon:process_input:at most one reply per request", not twice, "a path passes two reply sites", None, where)
     # (3) the reply is unconditional or guarded only by 'response is not None' and response is definitely a value
-    for r in reply_nodes:
+    for r in (reply_nodes if direct_reply else []):
         call = [c for c in ast.walk(cfg.nodes[r].ast) if c in reply_calls][0]
         arg = call.args[0] if call.args else None
         kws = {k.arg: k.value for k in call.keywords}
